@@ -91,6 +91,10 @@ class SynSigner(Signer):
         return self.a
 
 
+def hmac_key(n):
+    return bytes((7 * i + 1) & 0xFF for i in range(n))
+
+
 def make_signer(spec, for_interest):
     if spec == 'none':
         return None
@@ -98,6 +102,8 @@ def make_signer(spec, for_interest):
         return DigestSha256Signer(for_interest=for_interest)
     if spec == 'hmac':
         return HmacSha256Signer('/k/hmac', b'secret-key')
+    if isinstance(spec, str) and spec.startswith('hmac:'):
+        return HmacSha256Signer('/k/hmac', hmac_key(int(spec[5:])))
     if spec == 'rsa':
         return Sha256WithRsaSigner('/k/rsa/KEY/1', key_der('rsa2048_0'))
     if spec == 'ecdsa':
@@ -111,8 +117,8 @@ def make_signer(spec, for_interest):
     raise ValueError(spec)
 
 
-SIG_TYPE = {'digest': 0, 'hmac': 4, 'rsa': 1, 'ecdsa': 3, 'ed': 5, 'null': 200}
-SIG_KEYNAME = {'hmac': '/k/hmac', 'rsa': '/k/rsa/KEY/1', 'ecdsa': '/k/ec/KEY/1', 'ed': '/k/ed/KEY/1'}
+SIG_TYPE = {'digest': 0, 'hmac': 4, 'hmac:1': 4, 'hmac:63': 4, 'hmac:64': 4, 'hmac:65': 4, 'hmac:200': 4, 'rsa': 1, 'ecdsa': 3, 'ed': 5, 'null': 200}
+SIG_KEYNAME = {'hmac': '/k/hmac', 'hmac:1': '/k/hmac', 'hmac:63': '/k/hmac', 'hmac:64': '/k/hmac', 'hmac:65': '/k/hmac', 'hmac:200': '/k/hmac', 'rsa': '/k/rsa/KEY/1', 'ecdsa': '/k/ec/KEY/1', 'ed': '/k/ed/KEY/1'}
 
 # -- parameter menus --------------------------------------------------------------------------------
 FH_MENU = [[], [['h']], [['h'], ['g', 'h2']]]
